@@ -1,11 +1,14 @@
 #!/bin/bash
 # tools/run_mutant.sh <patchfile> <tier> <prop>... : apply to /repo, run the checks, undo.
+# With MUT_REPO=<worktree> the patch is applied there (and the checks run with VERIF_REPO=<worktree>)
+# instead of /repo, so that /repo stays free for other runs.
 P=$1; TIER=$2; shift 2
-git -C /repo diff --quiet || { echo "/repo not clean"; exit 2; }
-git -C /repo apply $P || exit 2
+R=${MUT_REPO:-/repo}
+git -C $R diff --quiet || { echo "$R not clean"; exit 2; }
+git -C $R apply $P || exit 2
 for prop in "$@"; do
-  OUT=$(cd /verif && ./check $prop $TIER 2>/dev/null); RC=$?
+  OUT=$(cd /verif && VERIF_REPO=$R ./check $prop $TIER 2>/dev/null); RC=$?
   echo "== $prop $TIER exit=$RC"; echo "$OUT" | grep -E "VIOLATION|signature:" | head -6
 done
-git -C /repo checkout -- .
-git -C /repo status --short | grep -v '^??' | head -3
+git -C $R checkout -- .
+git -C $R status --short | grep -v '^??' | head -3
